@@ -2,7 +2,7 @@
 import numpy as np
 import impl
 from gen import grid, data, unc
-from .common import arr, tolist, relerr
+from .common import arr, tolist, relerr, confusable, history_differs
 from .c16 import groom
 
 LEAN = "PystogVerif.Props.C14"
@@ -67,6 +67,15 @@ def evaluate(case):
         fails.append(f"lorch transform differs from plain transform of pre-multiplied data by {relerr(v0, vp, scale=sc):.3g}")
     if dy is not None and relerr(e0, ep, scale=float(np.abs(dy).max()) * float(hi - x.min()) + 1e-300) > 1e-9:
         fails.append("lorch uncertainty differs from plain uncertainty of pre-multiplied input uncertainty")
+    # "regardless of what the process computed before the call": the same Transformer first damps a different grid with the
+    # same length and end points (and the identical grid), then this one; a fresh Transformer must give the same bits
+    x2 = confusable(x)
+    if x2 is not None:
+        k = dict(xmax=xmax, dy_in=dy, lorch=True)
+        if history_differs("Transformer", "fourier_transform", (x, y, xo), k,
+                           [("fourier_transform", (x2, y, xo), k), ("fourier_transform", (x2, w * y, xo), dict(xmax=xmax, dy_in=dy))]):
+            fails.append("fourier_transform(lorch=True): result depends on an earlier call of the same Transformer "
+                         "(a grid with the same length and end points was transformed before)")
     ft = case.get("fort")
     if ft:
         import fortran
